@@ -228,10 +228,36 @@ def scale_obs_wrapper(env):
   return ScaleObs(env)
 
 
+def sys_reader_wrapper(env):
+  """A user wrapper that reads the (possibly randomised) System it forwards to: the action is scaled by a function of the
+  actuator gears, and the observation is doubled and shifted by the total mass."""
+  from brax.envs.base import Wrapper
+  from jax import numpy as jp
+
+  class SysReader(Wrapper):
+    def _obs(self, s):
+      return s.replace(obs=2.0 * s.obs + jp.sum(self.sys.link.inertia.mass))
+
+    def reset(self, rng):
+      return self._obs(self.env.reset(rng))
+
+    def step(self, state, action):
+      return self._obs(self.env.step(state, action * jp.tanh(self.sys.actuator.gear)))
+  return SysReader(env)
+
+
 @st.composite
-def genenv_cases(draw):
+def genenv_dr_cases(draw):
+  """Domain randomisation with a user wrapper that reads self.sys, on a model that has actuators (by construction)."""
+  c = draw(genenv_cases(classes=['actuated', 'fixed_then_free']))
+  c.update(dr=True, user_wrapper=True, user_wrapper_kind='sys')
+  return c
+
+
+@st.composite
+def genenv_cases(draw, classes=('actuated', 'actuated', 'fixed_then_free', 'stack')):
   p = modelgen.profile(limits='wide', max_bodies=3, gravity='any', actuators='bounded')
-  spec = draw(modelgen.model_spec(p, draw(st.sampled_from(['actuated', 'actuated', 'fixed_then_free', 'stack']))))
+  spec = draw(modelgen.model_spec(p, draw(st.sampled_from(list(classes)))))
   b = 4
   nu = len(spec['acts'])
   return {'family': 'genenv', 'spec': spec, 'backend': draw(st.sampled_from(phys.PIPELINES)), 'B': b,
@@ -239,6 +265,7 @@ def genenv_cases(draw):
           'key': draw(st.lists(st.integers(0, 2**32 - 1), min_size=2, max_size=2)), 'key2': draw(st.lists(st.integers(0, 2**32 - 1), min_size=2, max_size=2)),
           'actions': draw(st.lists(st.lists(modelgen.fl(-1.0, 1.0), min_size=b * nu, max_size=b * nu), min_size=6, max_size=12)),
           'member': draw(st.integers(0, b - 1)), 'dr': draw(st.booleans()), 'user_wrapper': draw(st.booleans()),
+          'user_wrapper_kind': draw(st.sampled_from(['scale', 'sys'])),
           'dr_scale': draw(st.lists(modelgen.fl(0.5, 2.0), min_size=3 * b, max_size=3 * b))}
 
 
@@ -265,8 +292,14 @@ def check_genenv(c, ctx=None):
   b, nu, i = c['B'], s_['nu'], c['member']
   env0 = gen_env(m, sys, c['backend'], c['threshold'], qmask_of(spec))
   obs_scale = 1.0
-  if c.get('user_wrapper'):
+  reads_sys = bool(c.get('user_wrapper')) and c.get('user_wrapper_kind', 'scale') == 'sys'
+  if reads_sys:
+    env0, obs_scale = sys_reader_wrapper(env0), 2.0
+  elif c.get('user_wrapper'):
     env0, obs_scale = scale_obs_wrapper(env0), 2.0
+  # what the sys-reading wrapper must do for a member whose own system is sy
+  act_of = (lambda sy, a: a * jp.tanh(sy.actuator.gear)) if reads_sys else (lambda sy, a: a)
+  shift_of = (lambda sy: float(jp.sum(sy.link.inertia.mass))) if reads_sys else (lambda sy: 0.0)
   acts = [jp.array(np.array(a, float).reshape(b, nu)) for a in c['actions']]
   keys = jax.random.split(jp.array(np.array(c['key'], np.uint32)), b)
   pm = m[c['backend']]
@@ -290,15 +323,15 @@ def check_genenv(c, ctx=None):
                                 'actuator.gear': sys.actuator.gear * sc[2, j]})
       ps0 = jax.tree_util.tree_map(lambda x: x[j], st0.pipeline_state)
       ref0 = jax.jit(lambda q_, qd_: pm.init(sys_j, q_, qd_))(ps0.q, ps0.qd)
-      ref1 = jax.jit(lambda s__, a_: pm.step(sys_j, s__, a_))(ref0, acts[0][j])
+      ref1 = jax.jit(lambda s__, a_: pm.step(sys_j, s__, a_))(ref0, act_of(sys_j, acts[0][j]))
       got1 = jax.tree_util.tree_map(lambda x: x[j], st1.pipeline_state)
       # observations go through every wrapper between the randomisation wrapper and the base env, at reset too
       for name, st_ in (('reset', st0),) + ((('step', st1),) if float(st1.done[j]) == 0.0 else ()):
         ps_ = jax.tree_util.tree_map(lambda x: x[j], st_.pipeline_state)
-        exp_obs = obs_scale * np.concatenate([np.asarray(ps_.q), np.asarray(ps_.qd)])
+        exp_obs = obs_scale * np.concatenate([np.asarray(ps_.q), np.asarray(ps_.qd)]) + shift_of(sys_j)
         if not np.allclose(np.asarray(st_.obs[j]), exp_obs, rtol=1e-12, atol=1e-12):
           raise Violation('domain_randomization', f'{c["backend"]}: member {j} {name} observation {np.asarray(st_.obs[j])[:4]} is not the wrapped env\'s observation '
-                          f'{exp_obs[:4]} of its own state (user wrapper between the randomisation wrapper and the base env: {bool(c.get("user_wrapper"))})',
+                          f'{exp_obs[:4]} of its own state (user wrapper between the randomisation wrapper and the base env: {bool(c.get("user_wrapper"))}, reading self.sys: {reads_sys})',
                           labels={'check': 'domain_randomization', 'backend': c['backend'], 'phase': name, 'field': 'obs'})
       phases = [('reset', ps0, ref0)]
       if float(st1.done[j]) == 0.0:  # an ended episode is replaced by the reset state by AutoResetWrapper
@@ -315,7 +348,7 @@ def check_genenv(c, ctx=None):
             raise Violation('domain_randomization', f'{c["backend"]}: member {j} (mass x{sc[0, j]:.2f}, friction x{sc[1, j]:.2f}, gear x{sc[2, j]:.2f}): '
                             f'{name} state leaf {jax.tree_util.keystr(path)} differs from pipeline.{"init" if name == "reset" else "step"} on that member\'s own system by {e:.3e}',
                             labels={'check': 'domain_randomization', 'backend': c['backend'], 'phase': name})
-    labels = ['genenv', 'domain_randomization', 'backend:' + c['backend']] + (['user_wrapper'] if c.get('user_wrapper') else [])
+    labels = ['genenv', 'domain_randomization', 'backend:' + c['backend']] + (['user_wrapper'] if c.get('user_wrapper') else []) + (['user_wrapper_reads_sys'] if reads_sys else [])
     mixed = True
   else:
     env = training.wrap(env0, episode_length=c['L'], action_repeat=c['r'])
@@ -408,7 +441,7 @@ def check_bundled(c, ctx=None):
 
 
 FAMILIES = {'pipeline': (pipeline_cases, check_pipeline), 'scripted': (scripted_cases, check_scripted), 'genenv': (genenv_cases, check_genenv),
-            'bundled': (bundled_cases, check_bundled)}
+            'bundled': (bundled_cases, check_bundled), 'genenv_dr': (genenv_dr_cases, check_genenv)}
 
 
 def tasks(tier, seed):
@@ -418,6 +451,8 @@ def tasks(tier, seed):
     out.append({'kind': 'pipeline', 'n': 1 if q else 20})
   for _ in range(5):
     out.append({'kind': 'genenv', 'n': 2 if q else 30})
+  for _ in range(2):
+    out.append({'kind': 'genenv_dr', 'n': 1 if q else 10})
   for _ in range(3):
     out.append({'kind': 'scripted', 'n': 6 if q else 120})
   for _ in range(2):
